@@ -1,4 +1,5 @@
 import DeltaModel.Generated.Superimpose
+import DeltaModel.Generated.SuperimposeLifetime
 /-!
 Model of `/repo/src/paint.rs` `mod superimpose_style_sections` (`explode`, the zip with
 the character check, `superimpose`, `coalesce` with `make_superimposed_style` and the final
@@ -282,5 +283,154 @@ def getSyntax {σ : Type} (byExt : List Char → Option σ) (fallback : σ)
   match choose byExt filename with
   | .found _ s => s
   | .default => fallback
+
+
+
+/-!
+## Lifetime of the highlighter (`Painter::syntax`, `Painter::highlighter`)
+
+Which language is *in force* when something is painted. `set_syntax` only stores the syntax;
+the highlighter (`HighlightLines`, which also carries the parse state of everything fed to it
+since its creation) is re-created from the stored syntax by `set_highlighter` only. Which of the
+two the handlers call, in which order and under which state-dependent guard, is **generated**
+(`Generated/SuperimposeLifetime.lean`) from `handle_diff_header_minus_line`,
+`handle_diff_header_plus_line` and `emit_hunk_header_line`, and interpreted by `execStmt`.
+Hand-written: what a hunk line does (`handle_hunk_line`: minus/plus lines are buffered, a
+context line flushes the buffer and is painted at once).
+
+The model assumes a syntax theme is configured (otherwise no highlighter is ever created and
+nothing is highlighted at all).
+-/
+namespace Lifetime
+open Generated.SuperimposeLifetime
+
+/-- A highlighter: the language it was created for and how many lines it has been fed since. -/
+abbrev Hl (σ : Type) := σ × Nat
+
+def feed {σ : Type} : Option (Hl σ) → Option (Hl σ)
+  | some (l, n) => some (l, n + 1)
+  | none => none
+
+inductive Kind where
+  | fragment | line
+  deriving DecidableEq, Repr
+
+/-- One painted element: the highlighter that was used, and the one the property asks for
+(language of the current file's name; fresh for a hunk-header fragment, fed with exactly the
+preceding lines of the same hunk for a hunk line). -/
+structure Painted (σ : Type) where
+  kind : Kind
+  used : Option (Hl σ)
+  expected : Hl σ
+
+structure State (σ : Type) where
+  /-- `painter.syntax` -/
+  syn : σ
+  /-- `painter.highlighter` -/
+  hl : Option (Hl σ)
+  /-- `self.minus_file`, `self.plus_file` (`none` = `/dev/null`) -/
+  minusName : Option (List Char)
+  plusName : Option (List Char)
+  /-- `painter.minus_lines ++ painter.plus_lines`: per buffered line, what the property expects -/
+  buffered : List (Hl σ)
+  /-- specification only: the language of the current file's name, lines of the current hunk so far -/
+  cur : σ
+  lineNo : Nat
+
+/-- `paint_buffered_minus_and_plus_lines`: the buffered lines go through the highlighter in order. -/
+def paintBuf {σ : Type} : Option (Hl σ) → List (Hl σ) → Option (Hl σ) × List (Painted σ)
+  | hl, [] => (hl, [])
+  | hl, e :: rest =>
+    let r := paintBuf (feed hl) rest
+    (r.1, ⟨.line, hl, e⟩ :: r.2)
+
+def evalGuard {σ : Type} (s : State σ) : Guard → Bool
+  | .always => true
+  | .ifHighlighterNone => s.hl.isNone
+  | .ifPlusNotDevNull => s.plusName.isSome
+
+/-- One painter statement. `lang` = `Painter::get_syntax` as a function of the file name. -/
+def execStmt {σ : Type} (lang : Option (List Char) → σ) (s : State σ) :
+    Stmt → State σ × List (Painted σ)
+  | .setSyntax .minus => ({ s with syn := lang s.minusName }, [])
+  | .setSyntax .plus => ({ s with syn := lang s.plusName }, [])
+  | .paintBuffered =>
+    let r := paintBuf s.hl s.buffered
+    ({ s with hl := r.1, buffered := [] }, r.2)
+  | .setHighlighter => ({ s with hl := some (s.syn, 0) }, [])
+  | .paintFragment => ({ s with hl := feed s.hl }, [⟨.fragment, s.hl, (s.cur, 0)⟩])
+
+def execStmts {σ : Type} (lang : Option (List Char) → σ) :
+    State σ → List (Guard × Stmt) → State σ × List (Painted σ)
+  | s, [] => (s, [])
+  | s, (g, st) :: rest =>
+    if evalGuard s g then
+      let r := execStmt lang s st
+      let r' := execStmts lang r.1 rest
+      (r'.1, r.2 ++ r'.2)
+    else execStmts lang s rest
+
+inductive Event where
+  /-- `--- path`, `rename from`, `copy from` (`none` = `/dev/null`) -/
+  | fileMinus (name : Option (List Char))
+  /-- `+++ path`, `rename to`, `copy to` -/
+  | filePlus (name : Option (List Char))
+  /-- first line of a hunk arrives: `emit_hunk_header_line` -/
+  | hunkHeader
+  /-- a `-`/`+` line: buffered (after a flush when a new sub-hunk starts or the buffer is full) -/
+  | changedLine (flushFirst : Bool)
+  /-- a context line: flush, then painted immediately -/
+  | contextLine
+  /-- a line that only flushes (`diff --git`, commit line, end of input …) -/
+  | flush
+  deriving Repr
+
+def step {σ : Type} (lang : Option (List Char) → σ) (s : State σ) :
+    Event → State σ × List (Painted σ)
+  | .fileMinus n => execStmts lang { s with minusName := n, cur := lang n } minusHeaderStmts
+  | .filePlus n =>
+    execStmts lang { s with plusName := n, cur := if n.isSome then lang n else s.cur } plusHeaderStmts
+  | .hunkHeader => execStmts lang { s with lineNo := 0 } hunkHeaderStmts
+  | .changedLine fl =>
+    let r := if fl then execStmt lang s .paintBuffered else (s, [])
+    ({ r.1 with buffered := r.1.buffered ++ [(s.cur, s.lineNo)], lineNo := s.lineNo + 1 }, r.2)
+  | .contextLine =>
+    let r := execStmt lang s .paintBuffered
+    ({ r.1 with hl := feed r.1.hl, lineNo := s.lineNo + 1 },
+      r.2 ++ [⟨.line, r.1.hl, (s.cur, s.lineNo)⟩])
+  | .flush => execStmt lang s .paintBuffered
+
+def run {σ : Type} (lang : Option (List Char) → σ) :
+    State σ → List Event → State σ × List (Painted σ)
+  | s, [] => (s, [])
+  | s, e :: rest =>
+    let r := step lang s e
+    let r' := run lang r.1 rest
+    (r'.1, r.2 ++ r'.2)
+
+/-- `Painter::new`: default syntax, no highlighter, nothing buffered. -/
+def initial {σ : Type} (lang : Option (List Char) → σ) : State σ :=
+  { syn := lang none, hl := none, minusName := none, plusName := none, buffered := [],
+    cur := lang none, lineNo := 0 }
+
+/-- Where in a file section the input is. -/
+inductive Phase where
+  | start    -- nothing known about what preceded
+  | header   -- after a `---`/`+++`/rename line of the current file
+  | hunk     -- after a hunk header of the current file
+  deriving DecidableEq, Repr
+
+/-- Well-formed event sequences: hunk headers only after a file header line, hunk lines only
+after a hunk header. -/
+def wf : Phase → List Event → Bool
+  | _, [] => true
+  | _, .fileMinus _ :: rest => wf .header rest
+  | _, .filePlus _ :: rest => wf .header rest
+  | ph, .hunkHeader :: rest => ph != .start && wf .hunk rest
+  | ph, .changedLine _ :: rest => ph == .hunk && wf .hunk rest
+  | ph, .contextLine :: rest => ph == .hunk && wf .hunk rest
+  | ph, .flush :: rest => wf ph rest
+
+end Lifetime
 
 end Superimpose
